@@ -1,3 +1,3 @@
 #!/bin/sh
 # Runs the repository's pinned suite (guard off); prints the pytest summary line.
-cd /repo && /venv/bin/python -m pytest -q -p no:cacheprovider --timeout=900 2>&1 | tail -2
+cd /repo && /venv/bin/python -m pytest -q -p no:cacheprovider --timeout=900 2>&1 | tail -1
